@@ -3,9 +3,9 @@
 # Re-runs, for every kept seeded change, the quick checks that caught it (meta.json: checks_run == VIOLATION) against the CURRENT /verif:
 # applies seeded/<name>/patch.diff in the worktree, runs ./check with VERIF_REPO=<worktree>, reverts. Writes seeded/REGRESSION.txt.
 wt=$1; glob=${2:-*}
-cd /verif
+cd "$(dirname "$(readlink -f "$0")")/.."
 out=seeded/REGRESSION.txt.new; : > $out
-echo "# seeded changes re-run against /verif $(git -C /verif rev-parse --short HEAD)$(git -C /verif diff --quiet || echo +dirty), /repo $(git -C /repo rev-parse --short HEAD)" >> $out
+echo "# seeded changes re-run against /verif $(git rev-parse --short HEAD 2>/dev/null)$(git diff --quiet 2>/dev/null || echo +dirty), /repo $(git -C /repo rev-parse --short HEAD)" >> $out
 for d in seeded/$glob/; do
   n=$(basename $d); [ -f $d/patch.diff ] || continue
   props=$(python3 -c "
